@@ -273,7 +273,7 @@ class DynamicObject:
             float: The heading (radian)
         """
         if self.frame_id == FrameID.BASE_LINK:
-            rots: float = self.state.orientation.radians
+            rots, _, _ = self.state.orientation.yaw_pitch_roll
         else:
             if transforms is None:
                 raise ValueError("transforms must be specified.")
@@ -370,11 +370,11 @@ class DynamicObject:
             return None
 
         def _clip(err: float) -> float:
-            """Clip [-2pi, 2pi] to [0, pi]"""
-            if err < 0:
-                err += -np.pi * (err // np.pi)
-            elif err > np.pi:
+            """Clip [-2pi, 2pi] to [-pi, pi]"""
+            if err > np.pi:
                 err -= 2 * np.pi
+            elif err < -np.pi:
+                err += 2 * np.pi
             return err
 
         yaw1, pitch1, roll1 = self.state.orientation.yaw_pitch_roll
